@@ -246,6 +246,15 @@ BEGIN
     UPDATE step SET _check_after = 1 WHERE node IN (OLD.source, OLD.sink);
     UPDATE step SET _check_ready = 1 WHERE node = OLD.sink;
 END;
+-- When a step stops consuming a file, the step that builds that file loses a sink.
+-- Its _implied_need and _tail_time cannot be reached by propagation from the former consumer,
+-- because the edge along which propagation travels is the one that was just deleted.
+-- A no-op UPDATE (zero rows matched) when the source of the deleted edge is not a file.
+CREATE TRIGGER IF NOT EXISTS step_dependency_check_after_del_producer AFTER DELETE ON dependency
+BEGIN
+    UPDATE step SET _check_after = 1
+    WHERE node IN (SELECT source FROM dependency WHERE sink = OLD.source);
+END;
 
 -- Keep _check_ready in sync with file state changes, so the scheduler recomputes
 -- readiness for every step that consumes this file as an input.
